@@ -1117,6 +1117,481 @@ fn rcase_strategy() -> impl Strategy<Value = RCase> {
     (prop::sample::select(race_transitions().to_vec()), crate::c05::case_strategy(3), prop::collection::vec(any::<u16>(), 0..120)).prop_map(|(transition, c, schedule)| RCase { transition, ops: c.ops, schedule })
 }
 
+// ---------------------------------------------------------------------------
+// (d) a poisoned handle is reopened while operations admitted earlier are still in flight
+// ---------------------------------------------------------------------------
+
+/// "cancel = crash ... reopening then yields a state satisfying C01 and C02" - also when the
+/// cancelled call was not alone on the handle: 1-2 mutations admitted BEFORE the poisoning are
+/// still inside a backend call (or queued behind one of them) when the collection is reopened on
+/// the same `AndaDB`. The documented behaviour (database.rs, retiring-handle handling in open):
+/// the open waits for the operations already admitted on the poisoned handle to drain, drops the
+/// handle and lets the fresh load run the recovery path (seeded change C06-5 loads at once).
+#[derive(Clone, Debug, Serialize, Deserialize)]
+pub struct ICase {
+    /// flushed pre-population (ids 1..)
+    pub pre: Vec<DocSpec>,
+    /// documents added after the flush (the poisoned handle never checkpoints them)
+    pub unflushed: Vec<DocSpec>,
+    /// 1-2 mutations that are admitted first and held inside a backend call chosen by the schedule
+    pub inflight: Vec<COp>,
+    /// the mutation whose cancellation (or injected backend failure) poisons the handle
+    pub poisoner: COp,
+    /// the reopen goes through `open_collection` (true) or `open_or_create_collection` (false)
+    pub plain_open: bool,
+    pub schedule: Vec<u16>,
+}
+
+const T_POISONER: u32 = 50;
+const T_REOPEN: u32 = 99;
+
+fn op_name(op: &COp) -> String {
+    match op {
+        COp::Add(_) => "add".into(),
+        COp::Update { id, .. } => format!("update({})", *id as u64 + 1),
+        COp::Remove { id } => format!("remove({})", *id as u64 + 1),
+        COp::SaveExt { .. } => "save_extension".into(),
+        other => format!("{other:?}"),
+    }
+}
+
+fn op_kind(op: &COp) -> &'static str {
+    match op {
+        COp::Add(_) => "add",
+        COp::Update { .. } => "update",
+        COp::Remove { .. } => "remove",
+        COp::SaveExt { .. } => "save_extension",
+        _ => "other",
+    }
+}
+
+fn point_name(x: &vf_core::sched::ParkInfo) -> String {
+    let tail = x.path.strip_prefix("vdb/docs/").unwrap_or(&x.path);
+    format!("{} its {:?} of {tail} {}", if x.phase == Phase::Before { "before" } else { "after" }, x.op, if x.phase == Phase::Before { "lands" } else { "landed" })
+}
+
+fn point_class(x: &vf_core::sched::ParkInfo) -> String {
+    let what = if x.path.contains("/data/") {
+        "document"
+    } else if x.path.contains("mutation_intents/") {
+        "intent"
+    } else {
+        "other"
+    };
+    format!("{:?}_{what}_{:?}", x.op, x.phase)
+}
+
+pub fn run_inflight_reopen(case: &ICase, ch: &mut Chooser, ctx: &mut CaseCtx) -> Result<(), String> {
+    install_clocks(1_700_000_000_000);
+    let rt = tokio::runtime::Builder::new_current_thread().enable_time().build().unwrap();
+    let local = tokio::task::LocalSet::new();
+    local.block_on(&rt, async {
+        let mem = Arc::new(InMemory::new());
+        let ctl = Ctl::new();
+        ctl.set_logging(true);
+        let hub = Hub::new();
+        let logged: Arc<dyn ObjectStore> = Arc::new(CtlStore::new(mem.clone(), ctl.clone()));
+        let store: Arc<dyn ObjectStore> = Arc::new(ParkStore::new(logged, hub.clone()));
+        let db = connect(store, false).await.map_err(|e| e.to_string())?;
+        let idx = crate::c05::idx_c05();
+        let col = open(&db, &idx).await.map_err(|e| e.to_string())?;
+        let mut pre = Model::new();
+        for s in &case.pre {
+            let f = s.fields();
+            if unique_conflict(&pre, &idx, None, &f) {
+                continue;
+            }
+            let id = col.add(make_doc(&col, &f)?).await.map_err(|e| e.to_string())?;
+            pre.insert(id, f);
+        }
+        col.flush(anda_db::unix_ms()).await.map_err(|e| e.to_string())?;
+        for s in &case.unflushed {
+            let f = s.fields();
+            if unique_conflict(&pre, &idx, None, &f) {
+                continue;
+            }
+            let id = col.add(make_doc(&col, &f)?).await.map_err(|e| e.to_string())?;
+            pre.insert(id, f);
+        }
+        let n = case.inflight.len();
+        // the backend reads of the operations are decision points too (an update can be held between
+        // its document read and its intent); the reopen parks on its writes only
+        hub.set_read_tasks((0..n as u32).chain([T_POISONER]).collect());
+        hub.set_enabled(true);
+        let done = Arc::new(AtomicU64::new(0));
+        let progress = {
+            let done = done.clone();
+            move || done.load(Ordering::SeqCst)
+        };
+        let rets: Arc<std::sync::Mutex<Vec<Option<Ret>>>> = Arc::new(std::sync::Mutex::new(vec![None; n]));
+        let mut steps = 0u64;
+
+        // stage 1: the in-flight operations, one after the other, each run up to a hold point
+        let mut handles = vec![];
+        let mut held: Vec<Option<vf_core::sched::ParkInfo>> = vec![None; n];
+        let mut queued = vec![false; n];
+        for i in 0..n {
+            let (col2, done2, rets2, op) = (col.clone(), done.clone(), rets.clone(), case.inflight[i].clone());
+            handles.push(tokio::task::spawn_local(OP_ID.scope(i as u32, async move {
+                let r = run_op(&col2, &op).await;
+                rets2.lock().unwrap()[i] = Some(r);
+                done2.fetch_add(1, Ordering::SeqCst);
+            })));
+            loop {
+                vf_core::sched::quiesce(&hub, &progress).await;
+                if rets.lock().unwrap()[i].is_some() {
+                    break;
+                }
+                let mine: Vec<_> = hub.parked().into_iter().filter(|x| x.task == i as u32).collect();
+                if mine.is_empty() {
+                    // admitted, no backend call of its own: it waits for a lock an earlier held operation owns
+                    queued[i] = true;
+                    break;
+                }
+                if ch.choose(2) == 1 {
+                    held[i] = Some(mine[0].clone());
+                    break;
+                }
+                hub.release(mine[0].id, true);
+                steps += 1;
+                if steps > 4000 {
+                    hub.release_all(true);
+                    return Err("inconclusive: schedule did not terminate".into());
+                }
+            }
+        }
+
+        // stage 2: the poisoner; at each of its backend calls: let it pass, drop the future, or (once) fail the call
+        let b_ret: Arc<std::sync::Mutex<Option<Ret>>> = Arc::new(std::sync::Mutex::new(None));
+        let b_handle = {
+            let (col2, done2, b_ret2, op) = (col.clone(), done.clone(), b_ret.clone(), case.poisoner.clone());
+            tokio::task::spawn_local(OP_ID.scope(T_POISONER, async move {
+                let r = run_op(&col2, &op).await;
+                *b_ret2.lock().unwrap() = Some(r);
+                done2.fetch_add(1, Ordering::SeqCst);
+            }))
+        };
+        let mut how: Option<String> = None;
+        let mut faulted = false;
+        loop {
+            vf_core::sched::quiesce(&hub, &progress).await;
+            if b_ret.lock().unwrap().is_some() {
+                break;
+            }
+            let mine: Vec<_> = hub.parked().into_iter().filter(|x| x.task == T_POISONER).collect();
+            let c = if mine.is_empty() { 1 } else { ch.choose(if faulted { 2 } else { 3 }) };
+            match c {
+                0 => hub.release(mine[0].id, true),
+                1 => {
+                    b_handle.abort();
+                    for x in &mine {
+                        hub.release(x.id, false);
+                    }
+                    vf_core::sched::quiesce(&hub, &progress).await;
+                    how = Some(match mine.first() {
+                        Some(x) => format!("{} was cancelled (future dropped) {}", op_name(&case.poisoner), point_name(x)),
+                        None => format!("{} was cancelled (future dropped) while it waited behind an in-flight operation", op_name(&case.poisoner)),
+                    });
+                    ctx.label("poisoner_cancelled");
+                    break;
+                }
+                _ => {
+                    faulted = true;
+                    how = Some(format!("{} failed: the backend reported a failure {}", op_name(&case.poisoner), point_name(&mine[0])));
+                    ctx.label("poisoner_backend_failure");
+                    hub.release(mine[0].id, false);
+                }
+            }
+            steps += 1;
+            if steps > 4000 {
+                hub.release_all(true);
+                return Err("inconclusive: schedule did not terminate".into());
+            }
+        }
+        if !col.is_poisoned() {
+            // the poisoner completed, failed cleanly, or was dropped where nothing had started: no reopen to examine
+            hub.release_all(true);
+            for h in handles {
+                let _ = h.await;
+            }
+            let _ = b_handle.await;
+            ctx.label("handle_not_poisoned");
+            return Ok(());
+        }
+        let how = how.unwrap_or_else(|| format!("{} poisoned the handle", op_name(&case.poisoner)));
+
+        // stage 3: the reopen on the same database, while the admitted operations are where they were held
+        let unfinished_at_reopen: Vec<usize> = (0..n).filter(|i| rets.lock().unwrap()[*i].is_none()).collect();
+        let in_flight: Vec<String> = (0..n)
+            .filter_map(|i| held[i].as_ref().filter(|_| unfinished_at_reopen.contains(&i)).map(|x| format!("{} (held {})", op_name(&case.inflight[i]), point_name(x))))
+            .chain((0..n).filter(|i| queued[*i] && unfinished_at_reopen.contains(i)).map(|i| format!("{} (queued behind it)", op_name(&case.inflight[i]))))
+            .collect();
+        let r_ret: Arc<std::sync::Mutex<Option<Result<Arc<Collection>, String>>>> = Arc::new(std::sync::Mutex::new(None));
+        let r_handle = {
+            let (db2, done2, r_ret2, idx2, plain) = (db.clone(), done.clone(), r_ret.clone(), idx.clone(), case.plain_open);
+            tokio::task::spawn_local(OP_ID.scope(T_REOPEN, async move {
+                let r = if plain { db2.open_collection("docs".to_string(), async |_c: &mut Collection| Ok(())).await } else { open(&db2, &idx2).await };
+                *r_ret2.lock().unwrap() = Some(r.map_err(|e| e.to_string()));
+                done2.fetch_add(1, Ordering::SeqCst);
+            }))
+        };
+        let mut late: Vec<String> = vec![];
+        let mut overlapped = false;
+        loop {
+            vf_core::sched::quiesce(&hub, &progress).await;
+            let ops_done = rets.lock().unwrap().iter().all(|r| r.is_some());
+            let reopened = r_ret.lock().unwrap().is_some();
+            if ops_done && reopened {
+                break;
+            }
+            let p = hub.parked();
+            if p.is_empty() {
+                hub.release_all(true);
+                for h in &handles {
+                    h.abort();
+                }
+                r_handle.abort();
+                return Err("inconclusive: nothing is parked but tasks are unfinished".into());
+            }
+            if !ops_done && p.iter().any(|x| x.task == T_REOPEN) {
+                overlapped = true;
+            }
+            // options: every parked call of an admitted operation, and the OLDEST parked write of the reopen
+            // (the order among the reopen's own concurrent index writes is not explored)
+            let mut opts: Vec<&vf_core::sched::ParkInfo> = p.iter().filter(|x| (x.task as usize) < n).collect();
+            if let Some(x) = p.iter().find(|x| (x.task as usize) >= n) {
+                opts.push(x);
+            }
+            let c = ch.choose(opts.len());
+            let x = opts[c];
+            if (x.task as usize) < n && reopened && x.op.is_mutation() && x.phase == Phase::Before {
+                late.push(format!("{:?} {} (by {})", x.op, x.path, op_name(&case.inflight[x.task as usize])));
+            }
+            hub.release(x.id, true);
+            steps += 1;
+            if steps > 4000 {
+                hub.release_all(true);
+                return Err("inconclusive: schedule did not terminate".into());
+            }
+        }
+        for h in handles {
+            let _ = h.await;
+        }
+        let _ = b_handle.await;
+        let _ = r_handle.await;
+        hub.set_enabled(false);
+        let rets: Vec<Ret> = rets.lock().unwrap().iter().map(|r| r.clone().unwrap()).collect();
+
+        let scene = if in_flight.is_empty() { format!("{how}; the collection was reopened") } else { format!("{how} while {} on the same handle; the collection was reopened before that finished", in_flight.join(" and ")) };
+        let fresh = match r_ret.lock().unwrap().take().unwrap() {
+            Ok(c) => c,
+            Err(e) => return Err(format!("{scene}: reopening the poisoned collection failed: {e}")),
+        };
+        if Arc::ptr_eq(&fresh, &col) || fresh.state() != CollectionState::Active {
+            return Err(format!("{scene}: the open returned {} in state {:?}", if Arc::ptr_eq(&fresh, &col) { "the poisoned handle itself" } else { "a handle" }, fresh.state()));
+        }
+        // (1) every index of the reopened handle answers exactly from the stored documents
+        let mut rec = Model::new();
+        for id in fresh.ids() {
+            rec.insert(id, doc_fields(&fresh.get(id).await.map_err(|e| format!("{scene}: the reopened handle lists document {id} but cannot read it: {e} (operation returns {rets:?})"))?));
+        }
+        check_indexes(&fresh, &rec, &idx, &format!("{scene}: reopened handle"))
+            .await
+            .map_err(|e| if late.is_empty() { e } else { format!("{e} [after the open had returned, the retired handle still wrote {late:?}]") })?;
+        // (2) a poisoned handle that has been replaced does not change storage
+        if !late.is_empty() {
+            return Err(format!("{scene}: open_collection returned the fresh handle although an operation admitted on the poisoned handle had not finished; the retired handle then wrote {late:?}"));
+        }
+        // (3) cancel = crash: untouched documents unchanged, acknowledged calls in effect, the others all-or-nothing
+        let all_ops: Vec<&COp> = case.inflight.iter().chain([&case.poisoner]).collect();
+        let touches = |id: u64| all_ops.iter().filter(|o| crate::c05::doc_of(o) == Some(id)).count();
+        for (id, d) in &pre {
+            if touches(*id) == 0 && rec.get(id) != Some(d) {
+                return Err(format!("{scene}: untouched document {id} changed across the reopen: {:?}, was {d:?}", rec.get(id)));
+            }
+        }
+        let all_rets: Vec<Option<Ret>> = rets.iter().cloned().map(Some).chain([b_ret.lock().unwrap().clone()]).collect();
+        for (i, op) in all_ops.iter().enumerate() {
+            let ret = all_rets[i].as_ref();
+            match op {
+                COp::Update { id, spec, mask } => {
+                    let id = *id as u64 + 1;
+                    let Some(old) = pre.get(&id) else { continue };
+                    if touches(id) != 1 {
+                        continue;
+                    }
+                    let new = merged(old, spec, *mask).0;
+                    let got = rec.get(&id);
+                    if matches!(ret, Some(Ret::Updated(_))) {
+                        if got != Some(&new) {
+                            return Err(format!("{scene}: update({id}) was acknowledged, after the reopen document {id} is {got:?}, acknowledged {new:?}"));
+                        }
+                    } else if got != Some(&new) && got != Some(old) {
+                        return Err(format!("{scene}: document {id} is neither the pre- nor the post-state of the unacknowledged update: {got:?}"));
+                    }
+                }
+                COp::Remove { id } => {
+                    let id = *id as u64 + 1;
+                    let Some(old) = pre.get(&id) else { continue };
+                    if touches(id) != 1 {
+                        continue;
+                    }
+                    let got = rec.get(&id);
+                    if matches!(ret, Some(Ret::Removed(Some(_)))) {
+                        if got.is_some() {
+                            return Err(format!("{scene}: remove({id}) was acknowledged, after the reopen document {id} is back"));
+                        }
+                    } else if got.is_some() && got != Some(old) {
+                        return Err(format!("{scene}: document {id} is neither present unchanged nor absent after the unacknowledged remove: {got:?}"));
+                    }
+                }
+                COp::Add(spec) => {
+                    if let Some(Ret::AddOk(id)) = ret {
+                        if rec.get(id) != Some(&spec.fields()) {
+                            return Err(format!("{scene}: an add acknowledged as id {id} reads {:?} after the reopen", rec.get(id)));
+                        }
+                    }
+                }
+                _ => {}
+            }
+        }
+        for (id, d) in &rec {
+            if !pre.contains_key(id) && !all_ops.iter().any(|o| matches!(o, COp::Add(s) if &s.fields() == d)) {
+                return Err(format!("{scene}: document {id} = {d:?} exists after the reopen; no add wrote it"));
+            }
+        }
+        // (4) the reopened handle is usable
+        let marker = fresh_spec(70).fields();
+        let mid = fresh.add(make_doc(&fresh, &marker)?).await.map_err(|e| format!("{scene}: the reopened handle refuses an add: {e}"))?;
+        if rec.insert(mid, marker).is_some() {
+            return Err(format!("{scene}: the reopened handle handed out the id {mid} of a live document"));
+        }
+        check_indexes(&fresh, &rec, &idx, &format!("{scene}: reopened handle after one more add")).await?;
+        // (5) the retired handle refuses everything, stays Poisoned and is silent
+        let mark = ctl.log_len();
+        for api in [Api::Add, Api::Update, Api::Remove, Api::Flush, Api::SaveExt, Api::Reconcile, Api::ReenableThenAdd] {
+            if call_api(&col, api, 5).await.is_ok() {
+                return Err(format!("{scene}: afterwards {api:?} on the retired (poisoned) handle succeeded"));
+            }
+        }
+        let w = writes_under_collection(&ctl.log(), mark);
+        if !w.is_empty() {
+            return Err(format!("{scene}: afterwards the retired (poisoned) handle wrote {w:?}"));
+        }
+        if col.state() != CollectionState::Poisoned {
+            return Err(format!("{scene}: the retired handle is in state {:?}, not Poisoned", col.state()));
+        }
+        // (6) the same after a flush and a restart over the same storage
+        fresh.flush(anda_db::unix_ms()).await.map_err(|e| format!("{scene}: flush on the reopened handle failed: {e}"))?;
+        db.close().await.map_err(|e| format!("{scene}: closing the database failed: {e}"))?;
+        let store: Arc<dyn ObjectStore> = Arc::new(CtlStore::new(mem.clone(), Ctl::new()));
+        let db2 = connect(store, false).await.map_err(|e| format!("{scene}: restart failed: {e}"))?;
+        let col2 = open(&db2, &idx).await.map_err(|e| format!("{scene}: restart failed: {e}"))?;
+        let mut rec2 = Model::new();
+        for id in col2.ids() {
+            rec2.insert(id, doc_fields(&col2.get(id).await.map_err(|e| format!("{scene}: after flush + restart document {id} is listed but unreadable: {e}"))?));
+        }
+        if rec2 != rec {
+            let diff: Vec<u64> = rec.keys().chain(rec2.keys()).filter(|id| rec.get(id) != rec2.get(id)).cloned().collect::<std::collections::BTreeSet<u64>>().into_iter().collect();
+            return Err(format!(
+                "{scene}: the reopened handle was flushed and the database closed; a restart reads other documents than the reopened handle did (ids {diff:?}: reopened handle {:?}, restart {:?})",
+                diff.iter().map(|i| rec.get(i)).collect::<Vec<_>>(),
+                diff.iter().map(|i| rec2.get(i)).collect::<Vec<_>>()
+            ));
+        }
+        check_indexes(&col2, &rec2, &idx, &format!("{scene}: after flush + restart")).await?;
+
+        let any_held = (0..n).any(|i| held[i].is_some() && unfinished_at_reopen.contains(&i));
+        ctx.nontrivial = any_held;
+        for i in 0..n {
+            if !unfinished_at_reopen.contains(&i) {
+                continue;
+            }
+            if let Some(x) = &held[i] {
+                ctx.label(format!("in_flight_at_reopen:{}:{}", op_kind(&case.inflight[i]), point_class(x)));
+            } else if queued[i] {
+                ctx.label(format!("queued_at_reopen:{}", op_kind(&case.inflight[i])));
+            }
+        }
+        if unfinished_at_reopen.is_empty() {
+            ctx.label("nothing_in_flight_at_reopen");
+        }
+        if overlapped {
+            ctx.label("reopen_wrote_while_an_operation_was_unfinished");
+        }
+        ctx.label(format!("poisoner:{}", op_kind(&case.poisoner)));
+        ctx.count("decision_points", steps);
+        Ok(())
+    })
+}
+
+fn ispec(name: u8, age: u8, tags: Vec<u8>, body: Vec<u8>) -> DocSpec {
+    DocSpec { name, age, score: 0, tags, opt: None, ukeys: vec![], attrs: vec![], body, emb: 0 }
+}
+
+/// Update masks never select a unique field (name, ukeys) and added documents carry names nobody
+/// else holds: no operation of a case releases or claims a unique value another one wants, which
+/// keeps the listed C04 finding (value released before its release is durable) out of this sub-check.
+const NON_UNIQUE_MASK: u16 = 0b1_1101_1110;
+
+fn inflight_reopen_shapes() -> Vec<ICase> {
+    let pre = vec![ispec(0, 0, vec![0], vec![0]), ispec(1, 1, vec![1], vec![1]), ispec(2, 2, vec![2, 0], vec![2, 3])];
+    let unflushed = vec![ispec(10, 1, vec![1], vec![4])];
+    let upd = |id: u8, age: u8| COp::Update { id, spec: ispec(0, age, vec![2], vec![3, 4]), mask: 0b1000_1010 };
+    let inflights: Vec<Vec<COp>> = vec![
+        vec![upd(0, 4)],
+        vec![COp::Remove { id: 1 }],
+        vec![COp::Add(ispec(50, 2, vec![0, 1], vec![1, 2]))],
+        vec![upd(0, 4), upd(0, 3)],
+        vec![COp::Remove { id: 1 }, upd(3, 2)],
+    ];
+    let poisoners: Vec<COp> = vec![COp::Add(ispec(60, 3, vec![1], vec![0, 2])), upd(2, 0), COp::Remove { id: 2 }, COp::SaveExt { k: 0, v: 1 }];
+    let mut v = vec![];
+    for (i, inflight) in inflights.iter().enumerate() {
+        for (j, poisoner) in poisoners.iter().enumerate() {
+            v.push(ICase { pre: pre.clone(), unflushed: unflushed.clone(), inflight: inflight.clone(), poisoner: poisoner.clone(), plain_open: (i + j) % 2 == 0, schedule: vec![] });
+        }
+    }
+    v
+}
+
+fn icase_strategy() -> impl Strategy<Value = ICase> {
+    let spec = || (0u8..4, prop::collection::vec(0u8..3, 0..3), prop::collection::vec(0u8..5, 0..3));
+    let op = move || {
+        prop_oneof![
+            3 => spec().prop_map(|(age, tags, body)| COp::Add(ispec(0, age, tags, body))),
+            5 => (any::<u8>(), spec(), 1u16..512).prop_map(|(id, (age, tags, body), mask)| COp::Update { id, spec: ispec(0, age, tags, body), mask }),
+            3 => any::<u8>().prop_map(|id| COp::Remove { id }),
+            1 => (0u8..2, any::<u8>()).prop_map(|(k, v)| COp::SaveExt { k, v }),
+        ]
+    };
+    (
+        prop::collection::vec(spec(), 1..4),
+        prop::collection::vec(spec(), 0..2),
+        prop::collection::vec(op(), 1..3),
+        op(),
+        any::<bool>(),
+        prop::collection::vec(any::<u16>(), 0..60),
+    )
+        .prop_map(|(pre, unflushed, inflight, poisoner, plain_open, schedule)| {
+            let ndocs = (pre.len() + unflushed.len()) as u8;
+            let pre: Vec<DocSpec> = pre.into_iter().enumerate().map(|(i, (age, tags, body))| ispec(i as u8, age, tags, body)).collect();
+            let unflushed: Vec<DocSpec> = unflushed.into_iter().enumerate().map(|(i, (age, tags, body))| ispec(10 + i as u8, age, tags, body)).collect();
+            let fix = |k: usize, op: COp| match op {
+                COp::Add(mut s) => {
+                    s.name = 50 + k as u8;
+                    COp::Add(s)
+                }
+                COp::Update { id, spec, mask } => COp::Update { id: id % ndocs, spec, mask: if mask & NON_UNIQUE_MASK == 0 { 0b10 } else { mask & NON_UNIQUE_MASK } },
+                COp::Remove { id } => COp::Remove { id: id % ndocs },
+                other => other,
+            };
+            let inflight: Vec<COp> = inflight.into_iter().enumerate().map(|(k, o)| fix(k, o)).collect();
+            let poisoner = fix(9, poisoner);
+            ICase { pre, unflushed, inflight, poisoner, plain_open, schedule }
+        })
+}
+
 pub fn run(r: &mut Runner) {
     r.assume("auto_flush timing and cancellation of index create/remove (they run inside the open callback on an unregistered &mut Collection) are not covered");
     r.assume("Collection::close on a read-only handle is documented as 'switch to read-only, then flush pending state': its flush may write; the check is then on content (a reopen yields the state the handle had when the flag was set)");
@@ -1251,6 +1726,50 @@ pub fn run(r: &mut Runner) {
                 }
                 Err((choices, e)) => Err(format!("{e} [choices {choices:?}]")),
             }
+        },
+    );
+    let ir_budget = r.tier.pick(400usize, 12_000usize);
+    r.sub_enum(
+        "reopen_while_an_operation_is_in_flight_all_hold_points",
+        "cancel = crash with company: over a flushed 3-document collection plus one unflushed add, 5 sets of 1-2 mutations (update, remove, add, two updates of one document - the second queued behind the first -, remove + update) are admitted on the handle and each is HELD before or after one of its backend calls (document read, intent write, document put / delete); then 4 poisoners (add, update, remove, save_extension) run on the same handle and at each of their backend calls the call passes, the future is DROPPED, or the backend reports a failure; once the handle is Poisoned the collection is reopened on the same AndaDB (open_collection / open_or_create_collection alternating) while the held operations are still where they were, and every release order of their remaining backend steps and the reopen's own writes is taken. All hold points x poison points x release orders are enumerated depth-first (budget in the counters). Oracle (all tasks finished): the open succeeds with a new Active handle; every index of the reopened handle answers exactly from the documents it reads (C02 observation, both directions); no backend write of an operation admitted on the poisoned handle lands after the open has returned its replacement; untouched documents are unchanged, acknowledged add / update / remove of a document nobody else touched are in effect, unacknowledged ones all-or-nothing, no document from nowhere; the reopened handle accepts one more add and stays consistent; the retired handle refuses add / update / remove / flush / save_extension / reconcile / set_read_only(false)+add, writes nothing and stays Poisoned; after flush + AndaDB::close a restart over the same storage reads exactly the documents the reopened handle read, with all indexes agreeing. No case releases or claims a unique value (the listed C04 finding is out of scope here). Non-trivial = the handle was poisoned and the reopen was issued while at least one admitted operation was still held inside a backend call",
+        true,
+        inflight_reopen_shapes(),
+        move |case, ctx| {
+            let mut nontrivial = false;
+            let mut labels: Vec<String> = vec![];
+            let res = vf_core::sched::dfs(ir_budget, |ch| {
+                let mut c2 = CaseCtx::default();
+                let r = run_inflight_reopen(case, ch, &mut c2);
+                nontrivial |= c2.nontrivial;
+                for l in c2.labels {
+                    if !labels.contains(&l) {
+                        labels.push(l);
+                    }
+                }
+                r
+            });
+            ctx.nontrivial = nontrivial;
+            for l in labels {
+                ctx.label(l);
+            }
+            match res {
+                Ok((n, exhausted)) => {
+                    ctx.count("schedules", n as u64);
+                    ctx.count(if exhausted { "sets_fully_enumerated" } else { "sets_cut_by_budget" }, 1);
+                    Ok(())
+                }
+                Err((choices, e)) => Err(format!("{e} [choices {choices:?}]")),
+            }
+        },
+    );
+    r.sub(
+        "reopen_while_an_operation_is_in_flight_generated",
+        "the same explorer over generated collections (1-3 flushed + 0-1 unflushed generated documents), 1-2 generated in-flight mutations (add / update of non-unique fields / remove / save_extension on generated targets), a generated poisoner, the reopen API and a generated schedule that chooses the hold points, the point and kind of the poisoning (drop / backend failure) and the release order during the reopen; same oracle. Non-trivial = the handle was poisoned and the reopen was issued while at least one admitted operation was still held inside a backend call",
+        (5000, 150_000),
+        icase_strategy,
+        |case, ctx| {
+            let mut ch = Chooser::from_random(case.schedule.clone());
+            run_inflight_reopen(case, &mut ch, ctx)
         },
     );
     r.sub(
